@@ -18,7 +18,7 @@ for d in sys.argv[1:]:
         subprocess.run(f"cd {scratch} && patch -p1 -s --no-backup-if-mismatch < {d}/patch.diff", shell=True, check=True)
         t0 = time.time()
         r = subprocess.run(
-            f"cd {scratch} && OMP_NUM_THREADS=1 OPENBLAS_NUM_THREADS=1 timeout 3000 {PY} -m pytest -q -p no:cacheprovider -n 8 --timeout=900 "
+            f"cd {scratch} && OMP_NUM_THREADS=1 OPENBLAS_NUM_THREADS=1 timeout -k 5 1200 {PY} -m pytest -q -p no:cacheprovider -n 8 --timeout=600 "
             "--deselect 'tests/test_optimizers.py::test_hyper[False-chocolate-chocolate]' "
             "--deselect 'tests/test_optimizers.py::test_hyper[True-chocolate-chocolate]' 2>&1 | tail -4",
             shell=True, capture_output=True, text=True)
